@@ -300,14 +300,15 @@ def compiled_tasks(ctx):
 TABLE_RE = re.compile(r'(?:CREATE TABLE(?: IF NOT EXISTS)?|DROP TABLE(?: IF EXISTS)?)\s+([A-Za-z_][\w.]*)', re.I)
 
 
-def run_plan(text, preds, record):
+def run_plan(text, preds, record, one_program=False):
   """Compile each requested predicate from a fresh program (as logica.py does for run_in_terminal) and execute
   through the real ExecuteLogicaProgram with a recording runner on one SQLite connection."""
   u = impl.M('compiler.universe'); cl = impl.M('common.concertina_lib'); sl = impl.M('common.sqlite3_logica')
   rules = impl.quiet(impl.parse, text)['rule']
   execs = []
+  shared = impl.quiet(u.LogicaProgram, rules) if one_program else None     # tools/run_in_terminal.RunMany compiles every predicate from ONE program object
   for p in preds:
-    prog = impl.quiet(u.LogicaProgram, rules)
+    prog = shared or impl.quiet(u.LogicaProgram, rules)
     impl.quiet(prog.FormattedPredicateSql, p)
     execs.append(prog.execution)
   con = sl.SqliteConnect()
@@ -364,10 +365,10 @@ def work_compiled(task):
       single[p] = res[p]
     except Exception as e:
       single[p] = ('error', type(e).__name__, str(e)[:200])
-  for subset in subsets:
+  for subset, one_program in [(sb, op) for sb in subsets for op in ((False, True) if len(sb) > 1 else (False,))]:
     rec = []
     try:
-      res, execs = run_plan(text, subset, rec)
+      res, execs = run_plan(text, subset, rec, one_program)
     except Exception as e:
       viol('exception:' + type(e).__name__, str(e)[:200], subset); continue
     stats['plans'] += 1; stats['statements'] += len(rec)
